@@ -537,7 +537,8 @@ func Derive(r *rand.Rand, g *Graph, o GraphOpts) *Graph {
 	extra := r.IntN(3)
 	for i := 0; i < extra; i++ {
 		if len(c.People) > 0 && r.IntN(2) == 0 {
-			t := *pick(r, c.People)
+			orig := pick(r, c.People)
+			t := *orig
 			t.Ptr = fmt.Sprintf("T%d", i+1)
 			t.UIDs, t.FSIDs = nil, nil
 			t.Names = append([]string(nil), t.Names...)
@@ -548,6 +549,35 @@ func Derive(r *rand.Rand, g *Graph, o GraphOpts) *Graph {
 				// close, and not a tie
 				for k := range t.Events {
 					t.Events[k].Date = shiftOneDay(t.Events[k].Date)
+				}
+				if r.IntN(2) == 0 && orig.Ptr != "" {
+					// the original can only be found by comparing (a new
+					// pointer, no identifiers) and the near twin stands in
+					// front of it: whoever takes "almost equal" for "equal"
+					// meets the wrong one first
+					old := orig.Ptr
+					orig.Ptr = fmt.Sprintf("Q%d", i+1)
+					orig.UIDs, orig.FSIDs = nil, nil
+					for _, f := range c.Families {
+						if f.Husb == old {
+							f.Husb = orig.Ptr
+						}
+						if f.Wife == old {
+							f.Wife = orig.Ptr
+						}
+						for k := range f.Chil {
+							if f.Chil[k] == old {
+								f.Chil[k] = orig.Ptr
+							}
+						}
+					}
+					for k, q := range c.People {
+						if q == orig {
+							c.People = append(c.People[:k], append([]*Person{&t}, c.People[k:]...)...)
+							break
+						}
+					}
+					continue
 				}
 			}
 			c.People = append(c.People, &t)
